@@ -112,6 +112,14 @@ def focus(r):
     if r.random() < 0.06:
         f["junctions"] = r.choice([1, 2])
         f["zero_props"] = 0.7
+    if f.get("timed") and r.random() < 0.6:
+        # junctions inside a duration group (several timed inflows into one junction: a recorded flow larger than the people in its source bin is an over-draw)
+        f["group_size"] = r.choice([2, 2, 3])
+        f["max_rows"] = 12
+        if r.random() < 0.6:
+            f["jgroup"] = True
+        else:
+            f["group_junction"] = 1.0
     return f
 
 
